@@ -38,7 +38,9 @@ struct Sem : pika::counting_semaphore<>
 struct Op
 {
     char k;    // A acquire(n) Y try_acquire W try_wait(n) R release(n) S sl.wait(u) T sl.try_wait(u) G sl.signal(x)
+               // Z sl.signal_all() (printed Z0, result printed as [value]) M sl.set_max_difference(n, lo) (printed M<n>:<lo>)
     int n;
+    int lo = 0;
 };
 
 // watchdog: the controlling thread itself calls into the semaphore (final-count probe, clean-up);
@@ -93,6 +95,7 @@ int main(int argc, char** argv)
         int v0 = (int) rng.below(3), lo0 = (int) rng.below(3), md = (int) rng.below(4);
         bool mixed = rng.chance(1, 5);    // detail-level counts != 1
         int flavour = (int) rng.below(4);
+        bool with_m = rng.chance(1, 2);    // sliding: programs with signal_all / set_max_difference
         std::vector<std::vector<Op>> progs(T);
         for (int t = 0; t < T; ++t)
         {
@@ -102,9 +105,15 @@ int main(int argc, char** argv)
                 Op o{};
                 if (sliding)
                 {
-                    int r = (int) rng.below(10);
-                    o.k = r < 5 ? 'S' : r < 7 ? 'T' : 'G';
+                    int r = (int) rng.below(with_m ? 12 : 10);
+                    o.k = r < 5 ? 'S' : r < 7 ? 'T' : r < 9 ? 'G' : r < 10 ? (with_m ? 'Z' : 'G') : r < 11 ? 'Z' : 'M';
                     o.n = (int) rng.below(9);
+                    if (o.k == 'Z') o.n = 0;
+                    if (o.k == 'M')
+                    {
+                        o.n = (int) rng.below(8);     // new max_difference
+                        o.lo = (int) rng.below(6);    // new lower limit (may be below the current one)
+                    }
                 }
                 else
                 {
@@ -135,6 +144,7 @@ int main(int argc, char** argv)
         Sem sem(v0);
         pika::sliding_semaphore sl(md, lo0);
         std::atomic<bool> stop{false};
+        std::atomic<int> cur_md{md};    // max_difference in force (last set_max_difference issued)
         std::vector<std::string> got(T);
         std::vector<std::atomic<int>> ndone(T);
         for (auto& x : ndone) x = 0;
@@ -147,7 +157,7 @@ int main(int argc, char** argv)
                     for (Op const& o : progs[t])
                     {
                         if (stop.load()) break;
-                        bool r = true;
+                        bool r = true, zres = false;
                         switch (o.k)
                         {
                         case 'A': if (o.n == 1) sem.acquire(); else sem.acquire_n(o.n); break;
@@ -157,9 +167,23 @@ int main(int argc, char** argv)
                         case 'S': sl.wait(o.n); break;
                         case 'T': r = sl.try_wait(o.n); break;
                         case 'G': sl.signal(o.n); break;
+                        case 'Z':
+                        {
+                            // the public wrapper has no hook (one-line function): harness-side site, as for 808 above
+                            PIKA_VERIF_POINT(808, &sl);
+                            std::int64_t v = sl.signal_all();
+                            if (!stop.load()) got[t] += "[" + std::to_string(v) + "]";
+                            zres = true;
+                            break;
+                        }
+                        case 'M':
+                            PIKA_VERIF_POINT(808, &sl);
+                            cur_md.store(o.n);    // lock-step: nobody else runs until this thread parks, blocks or ends
+                            sl.set_max_difference(o.n, o.lo);
+                            break;
                         }
                         if (stop.load()) break;    // woken by the clean-up, not by the schedule
-                        got[t].push_back(r ? '1' : '0');
+                        if (!zres) got[t].push_back(r ? '1' : '0');
                         ndone[t]++;
                     }
                     ctl.end();
@@ -203,7 +227,10 @@ int main(int argc, char** argv)
             for (auto& p : progs)
             {
                 in << " ";
-                for (size_t i = 0; i < p.size(); ++i) in << (i ? "," : "") << p[i].k << p[i].n;
+                for (size_t i = 0; i < p.size(); ++i) {
+                    in << (i ? "," : "") << p[i].k << p[i].n;
+                    if (p[i].k == 'M') in << ":" << p[i].lo;
+                }
             }
             in << " ";
             for (size_t i = 0; i < sched.size(); ++i) in << (i ? "," : "") << sched[i];
@@ -231,7 +258,7 @@ int main(int argc, char** argv)
             {
                 fin = -100;
                 for (int u = 40; u >= -10; --u)
-                    if (sl.try_wait(u)) { fin = u - md; break; }
+                    if (sl.try_wait(u)) { fin = u - cur_md.load(); break; }
             }
             out << "OUT LS " << cs << " sites=";
             for (size_t i = 0; i < sites.size(); ++i) out << (i ? "," : "") << sites[i];
